@@ -137,12 +137,44 @@ def sweep_cases(tier):
                     yield {'kind': 'sweep', 'spawner': 'POPEN', 'bulks': [[spec]], 'moves': moves}
 
 
+def sweep2_cases(tier):
+    """two running tasks in one watcher pass: one exits on its own, the other one's cancel (or
+    run-time limit) is in flight - stopped after i yield points - when the watcher makes its pass.
+    Both orders of the two tasks in the watch list."""
+    imax = 14 if tier == 'quick' else 22
+    for who in ('cancel', 'to'):
+        for victim in (0, 1):            # the task canceled / timed out; the other one exits
+            other = 1 - victim
+            for i in range(imax):
+                for ex in ('before', 'mid', 'none'):
+                    for pre in (0, 40):      # the watcher has (not) taken both tasks over before
+                        specs = [{'exit': 0}, {'exit': 0}]
+                        if who == 'to':
+                            specs[victim]['timeout'] = 1
+                        moves = [['submit'], ['named', 'intake', 60]]
+                        if pre:
+                            moves.append(['named', 'watch', pre])
+                        if ex == 'before':
+                            moves.append(['exit', other])
+                        if who == 'to':
+                            moves.append(['tick', 5])
+                        else:
+                            moves.append(['cancel', [victim]])
+                        moves.append(['named', who, i])
+                        if ex == 'mid':
+                            # `other` is the only/other live process: index among live ones
+                            moves.append(['exit', other])
+                        moves.append(['named', 'watch', 40])
+                        yield {'kind': 'sweep', 'spawner': 'POPEN', 'bulks': [specs], 'moves': moves}
+
+
 def parts(tier):
     return [
         Part('popen_schedules', schedules(), quick=300, thorough=2500),
         Part('noop_schedules', schedules(spawner='NOOP'), quick=40, thorough=200),
         Part('one_task_interleavings', enum=dfs_cases),
         Part('preemption_sweep', enum=sweep_cases),
+        Part('two_task_sweep', enum=sweep2_cases),
     ]
 
 
